@@ -70,6 +70,21 @@ theorem C08_alias_witness :
 /- The witness respects `C08_owner`: at the time of the write instance 0 is held by goroutine 1
 alone — goroutine 0's caller holds the BUFFER, not the instance. -/
 
+/-- the hypotheses of `C08_return` are met by real runs: with copying, goroutine 0 has returned its
+private copy (so `held` is not empty) and goroutine 1, handed the same instance, writes its buffer -/
+example :
+    ∃ (σ σ' : State Unit Unit Unit) (l : Loc),
+      Reachable (fun s => s) (fun s _ => s) (fun s => s) () true σ ∧
+      Step (fun s => s) (fun s _ => s) (fun s => s) () true σ (.write l) σ' ∧ σ.held = [.priv 0] := by
+  have r0 : Reachable (X := Unit) (S := Unit) (R := Unit) (fun s => s) (fun s _ => s) (fun s => s) () true (init ()) := .init
+  have r1 := Reachable.step r0 (Step.getNew _ 0 [] rfl)
+  have r2 := Reachable.step r1 (Step.finish _ 0 0 [] rfl)
+  have r3 := Reachable.step r2 (Step.copy _ 0 0 [] () rfl rfl)
+  have r4 := Reachable.step r3 (Step.putCopied _ 0 0 0 [] () rfl)
+  have r5 := Reachable.step r4 (Step.ret _ 0 (.priv 0) [] () rfl)
+  have r6 := Reachable.step r5 (Step.getPool _ 1 0 [()] rfl (by simp))
+  exact ⟨_, _, .inst 0, r6, Step.work _ 1 0 [] [] () rfl, rfl⟩
+
 /-! ## Results of the pooled parser functions: C07 discharges the hypothesis of `C08_results`
 
 A "work" step is one entry-point call (`entryReset` of the generated fields, then the machine over
